@@ -95,7 +95,8 @@ def configs(quick, setarch):
                 Config("all-varied", aslr=not setarch, cwd="bb/deeper/dir", relative=True, big_env=True, locale="C.UTF-8"),
                 Config("over-previous-run", reuse=True), Config("after-other-revision", history=True),
                 Config("long-path-250", path_shape="long250"), Config("long-path-1000-relative", path_shape="long1000", relative=True),
-                Config("dotdot-symlink", path_shape="dotdot-symlink"), Config("spaces-in-path", path_shape="spaces", cwd="dir with blanks/b")]
+                Config("dotdot-symlink", path_shape="dotdot-symlink"), Config("dotdot-symlink-relative", path_shape="dotdot-symlink", relative=True),
+                Config("spaces-in-path", path_shape="spaces", cwd="dir with blanks/b")]
     cs = [base, Config("repeat"), Config("repeat2"), Config("cwd", cwd="bb/deeper/dir"), Config("relative-path", relative=True),
           Config("huge-env", big_env=True), Config("utf8-locale", locale="C.UTF-8"), Config("over-previous-run", reuse=True),
           Config("all-varied", cwd="cc", relative=True, big_env=True, locale="C.UTF-8"), Config("after-other-revision", history=True),
@@ -130,7 +131,7 @@ def run_tool(b, tool, exp_abs, root, cfg, timeout=600):
         shutil.rmtree(wd, ignore_errors=True)
         os.makedirs(wd)
     exp_abs = shaped_path(exp_abs, root, cfg.path_shape)
-    path = os.path.relpath(exp_abs, wd) if cfg.relative else exp_abs
+    path = relative_to(exp_abs, wd) if cfg.relative else exp_abs
     env = {"PATH": "/usr/bin:/bin", "LD_LIBRARY_PATH": b.lib, "HOME": "/nonexistent",
            "ASAN_OPTIONS": "detect_leaks=0", "UBSAN_OPTIONS": "print_stacktrace=1"}
     if cfg.locale.startswith("LANG="):
@@ -150,6 +151,17 @@ def run_tool(b, tool, exp_abs, root, cfg, timeout=600):
     # and in SCHEMA_TARGETS("<input>") / messages: mask exactly these two strings
     out = out.replace(wd, "<CWD>").replace(path, "<INPUT>")
     return r.returncode, wd, out, path, r.stderr.decode("latin-1")[-300:]
+
+
+def relative_to(path, wd):
+    """a relative spelling of `path` as seen from `wd` that keeps its `.`/`..`/symlink segments as they are.
+    os.path.relpath must not be used on the whole path: it collapses `<symlink>/..` lexically, which names a different
+    (here: nonexistent) file, because the kernel resolves `..` against the link's target.  Only the leading part that
+    is free of such segments is made relative; the rest is appended untouched."""
+    parts = path.split("/")
+    cut = next((i for i, c in enumerate(parts) if c in (".", "..") or os.path.islink("/".join(parts[:i + 1]) or "/")), len(parts))
+    head, tail = "/".join(parts[:cut]) or "/", parts[cut:]
+    return os.path.join(os.path.relpath(head, wd), *tail)
 
 
 ENV_MARK = "VerifEnvValueMarker"
